@@ -215,6 +215,85 @@ def canary_lost_wakeup(pr, ctx):
     return [waiter, setter]
 
 
+def nondaemon_conformance() -> int:
+    import subprocess
+
+    res = {}
+    for kind in ("nondaemon", "daemon"):
+        def scenario(w, P, kind=kind):
+            p = w.new_proc("p")
+            em = p.execmodel
+
+            def main():
+                def linger():
+                    em.sleep(0.3)
+
+                if kind == "nondaemon":
+                    em.start_nondaemon(linger)
+                else:
+                    em.start(linger)
+
+            w.spawn(main, proc=p, name="main", role="user", is_main=True)
+            return p
+
+        r = explorer.run_once(scenario, lambda w, p, P: (None, round(p.exit_time or -1, 3)), {}, [])
+        code = "import threading, time\nthreading.Thread(target=time.sleep, args=(0.3,), daemon=%s).start()" % (kind == "daemon")
+        t = time.time()
+        subprocess.run([sys.executable, "-c", code], check=True)
+        res[kind] = (r.outcome, time.time() - t)
+    ok = res["nondaemon"][0] >= 0.3 and res["nondaemon"][1] >= 0.3 and res["daemon"][0] < 0.3 and res["daemon"][1] < 0.3
+    print(f"selftest non-daemon threads: virtual exit at {res['nondaemon'][0]} / {res['daemon'][0]} s, real {res['nondaemon'][1]:.2f} / {res['daemon'][1]:.2f} s: {'ok' if ok else 'FAIL'}")
+    return 0 if ok else 1
+
+
+def gc_canary() -> int:
+    from engine import instrument
+
+    src = "def critical(sh):\n    x = sh['n']\n    sh['n'] = x + 1\n"
+    ns: dict = {}
+    exec(instrument.instrument_source(src, "<selftest-gc>", "selftest_gc"), ns)
+    mask = instrument.select(lambda m, q, l: m == "selftest_gc")
+
+    def scenario(w, P):
+        p = w.new_proc("p")
+        sh = {"n": 0}
+
+        class Fin:
+            def __del__(self):
+                sh["n"] += 10
+
+        def main():
+            f = Fin()
+            f.me = f
+            del f  # cyclic garbage: only the collector finalizes it
+            w.gc_mask = mask if P["gc"] else None
+            w.exploring = True
+            ns["critical"](sh)
+            w.exploring = False
+            w.gc_mask = None
+            import gc
+
+            gc.collect()
+
+        w.spawn(main, proc=p, name="main", role="user", is_main=True)
+        return sh
+
+    def oracle(w, sh, P):
+        return (("selftest:gc", f"n={sh['n']}") if sh["n"] != 11 else None), sh["n"]
+
+    class S:
+        pass
+
+    S.scenario, S.oracle = staticmethod(scenario), staticmethod(oracle)
+    off = explorer.explore(S, {"gc": False}, {"ps": 0, "env": 1, "free": 0}, procs=1)
+    on = explorer.explore(S, {"gc": True}, {"ps": 0, "env": 1, "free": 0}, procs=1)
+    ok = not off.violations and bool(on.violations) and sorted(on.outcomes) == [1, 11]
+    print(f"selftest canary gc-as-environment: without gc choices {sorted(off.outcomes)}, with {sorted(on.outcomes)} in {on.execs} executions: {'ok' if ok else 'FAIL'}")
+    if on.violations:
+        explorer.confirm(S, {"gc": True}, on.violations[0][0])
+    return 0 if ok else 1
+
+
 def main() -> int:
     t0 = time.time()
     fails = 0
@@ -251,6 +330,10 @@ def main() -> int:
         else:
             prefix = st.violations[0][0]
             explorer.confirm(scn, {"bad": bad}, prefix)
+    # (4) a non-daemon thread keeps a (virtual and a real) process alive, a daemon thread does not
+    fails += nondaemon_conformance()
+    # (5) the cyclic collector as an environment choice: a finalizer landing inside a two-statement update
+    fails += gc_canary()
     print(f"selftest: {'OK' if not fails else 'FAILED'} in {time.time() - t0:.1f}s")
     return 2 if fails else 0
 
